@@ -83,21 +83,66 @@ def run(chk):
         psamp, pkey = [p["n"] for p in ph.params]
         acc = [p for p in pps if p["kind"] == "local" and p["op"] in ("+=", "-=") and p["loops"]]
         ret = [p for p in pps if p["kind"] == "return"]
-        if len(acc) != 1 or len(ret) != 1:
+        bad_shape = [p for p in pps if p["kind"] in ("asm", "while", "unknown")]
+        if not acc or len(ret) != 1 or bad_shape:
             chk.broken("lwePhase: accumulation/return not recognised")
-        A = acc[0]
-        pl = A["loops"][0]
         n_ph = sym.arrow(P(pkey, "params"), "n")
-        i = pl["var"]
-        want_prod = sym.mul(sym.idx(P(psamp, "a"), i), sym.idx(P(pkey, "key"), i))
-        accvar = ("var", A["name"], A["id"])
-        sign_ph = 1 if A["op"] == "+=" else -1
-        ok_ph = (pl["lo"], pl["cmp"], pl["hi"]) == (ZERO, "<", n_ph) and A["val"] == want_prod and \
-            ret[0]["val"] == sym.sub(P(psamp, "b"), sym.mul(I(sign_ph), accvar))
-        chk.require(ok_ph, "R1", "lwePhase = b - sum_{i<n} a[i]*key[i]", where=ph.where,
-                    ok="accumulates a[i]*key[i] over [0, key->params->n), returns b - sum",
-                    bad="accumulates %s %s over [%s,%s), returns %s" % (A["op"], sym.show(A["val"]), sym.show(pl["lo"]), sym.show(pl["hi"]),
-                                                                        sym.show(ret[0]["val"])), variant=vn)
+        # return value = b + sum_k c_k * accumulator_k ; every accumulator starts at 0
+        accvars = {("var", A["name"], A["id"]) for A in acc}
+        rv = ret[0]["val"]
+        coef = {}
+        rest = rv
+        for av in accvars:
+            lin = sym.linear_in(rest, av)
+            if lin is None or sym.const_value(lin[0]) is None:
+                chk.broken("lwePhase: return value %s is not linear in the accumulator %s" % (sym.show(rv), av[1]))
+            coef[av] = sym.const_value(lin[0])
+            rest = lin[1]
+        inits = {("var", p["name"], p["id"]): p for p in pps if p["kind"] == "local" and p["op"] in ("=", "decl") and not p["loops"]}
+        problems = []
+        for av in accvars:
+            if av not in inits or inits[av]["val"] != ZERO:
+                problems.append("accumulator %s does not start at 0" % av[1])
+        if rest != P(psamp, "b"):
+            problems.append("returns %s: b does not enter with coefficient 1" % sym.show(rv))
+        terms = []
+        for A in acc:
+            lp = A["loops"][-1]
+            items = sym.poly_items(A["val"])
+            av = ("var", A["name"], A["id"])
+            if len(A["loops"]) != 1 or items is None or len(items) != 1 or len(items[0][0]) != 2:
+                chk.broken("lwePhase: accumulated value %s is not one product inside one loop" % sym.show(A["val"]))
+            (m1, m2), c = items[0]
+            fa = [x for x in (m1, m2) if x[0] == "idx" and x[1] == P(psamp, "a")]
+            fk = [x for x in (m1, m2) if x[0] == "idx" and x[1] == P(pkey, "key")]
+            if len(fa) != 1 or len(fk) != 1:
+                problems.append("accumulated product %s is not a[.]*key[.] (line %s)" % (sym.show(A["val"]), A["line"]))
+                continue
+            if fa[0][2] != fk[0][2]:
+                problems.append("product pairs a[%s] with key[%s] (line %s)" % (sym.show(fa[0][2]), sym.show(fk[0][2]), A["line"]))
+                continue
+            terms.append((lp, fa[0][2], c * (1 if A["op"] == "+=" else -1) * coef[av]))
+        sign_ph = None
+        detail = ""
+        if not problems:
+            from sa import coverage
+            status, detail = coverage.cover_1d(terms, n_ph)
+            if status == "unknown":
+                chk.broken("lwePhase: %s" % detail)
+            if status == "refuted":
+                problems.append(detail)
+            signs = {sg for _, _, sg in terms}
+            if signs == {-1}:
+                sign_ph = 1          # the phase removes +sum a*s
+            elif signs == {1}:
+                sign_ph = -1
+            elif not problems:
+                problems.append("products enter the phase with coefficients %s" % sorted(signs))
+        chk.require(not problems, "R1", "lwePhase = b - sum_{i<n} a[i]*key[i]", where=ph.where,
+                    ok="%d accumulation statement(s): %s; returns b - sum" % (len(acc), detail),
+                    bad="; ".join(problems), variant=vn)
+        if sign_ph is None:
+            sign_ph = 1
         for ename in ("lweSymEncrypt", "lweSymEncryptWithExternalNoise"):
             e = v.fn(ename)
             eps, _ = summ.pieces(v, e, hooks=inl())
